@@ -33,7 +33,7 @@ ASSUMPTIONS = [
 ]
 REQUIRED_COUNTERS = [
     "c15.outcome.value", "c15.outcome.raised.IndexError", "c15.outcome.raised.TypeError",
-    "c15.class.construct", "c15.class.alias", "c15.class.getitem1", "c15.class.getitem2",
+    "c15.class.construct", "c15.construct.strided-buffer", "c15.class.alias", "c15.class.getitem1", "c15.class.getitem2",
     "c15.class.setitem1", "c15.class.setitem2", "c15.class.binop", "c15.class.inplace",
     "c15.class.unary", "c15.class.size", "c15.class.query", "c15.class.elementwise", "c15.class.overflow",
     "c15.class.mutate-result",
@@ -146,6 +146,22 @@ def run(ctx):
                 src = rng.choice(["matrix(array('%s', %s), (%d,%d))" % (atc, vals_src(vals), m, n),
                                   "matrix(array('%s', %s))" % (atc, vals_src(vals)),
                                   "matrix(array('%s', %s), (%d,%d), '%s')" % (atc, vals_src(vals), m, n, tc)])
+                if m * n and rng.random() < 0.4:
+                    # the same elements seen through a NON-contiguous 1-D buffer (stride 2, 3 or -1 over a longer array)
+                    step = rng.choice([2, 3, -1, -2])
+                    start = rng.randint(0, 2) if step > 0 else None
+                    L = m * n
+                    if step > 0:
+                        big = [rnum(rng, "d" if atc == "d" else "i") for _ in range(start + (L - 1) * step + 1 + rng.randint(0, 2))]
+                        big = big[:start + (L - 1) * step + 1]
+                        stx = "%d" % start
+                    else:
+                        big = [rnum(rng, "d" if atc == "d" else "i") for _ in range((L - 1) * (-step) + 1)]
+                        stx = "None"
+                    src = rng.choice(["matrix(strided(array('%s', %s), %s, %d), (%d,%d))" % (atc, vals_src(big), stx, step, m, n),
+                                      "matrix(strided(array('%s', %s), %s, %d))" % (atc, vals_src(big), stx, step),
+                                      "matrix(strided(array('%s', %s), %s, %d), (%d,%d), '%s')" % (atc, vals_src(big), stx, step, m, n, tc)])
+                    ctx.count("c15.construct.strided-buffer")
             elif kind == "empty":
                 src = rng.choice(["matrix([])", "matrix([], (0,%d))" % n, "matrix([], (%d,0), '%s')" % (m, tc),
                                   "matrix([[]])", "matrix([[], []])", "matrix(%r, (0,%d))" % (rnum(rng, tc), n),
